@@ -698,6 +698,9 @@ def db_scenarios(tier):
                   threads={1: [["set", "u1", 1], ["get", "u1"]], 2: [["set", "u1", 2], ["in", "u1"], ["keys"]]}))
     S.append(dict(name="db-del-3", disk=False, users=["u1", "u2"], pre=[["set", "u1", 1], ["set", "u2", 1]],
                   threads={1: [["del", "u1"], ["get", "u2"]], 2: [["get", "u1"], ["keys"]], 3: [["set", "u2", 2]]}))
+    # two threads delete the same user: the loser gets KeyError and everything else goes on (error paths release the lock)
+    S.append(dict(name="db-del-del", disk=False, users=["u1", "u2"], pre=[["set", "u1", 1]],
+                  threads={1: [["del", "u1"], ["in", "u2"]], 2: [["del", "u1"], ["get", "u1"], ["set", "u2", 2]]}))
     S.append(dict(name="db-disk", disk=True, users=["u1", "u2"], pre=[["set", "u2", 2]],
                   threads={1: [["set", "u1", 1], ["get", "u2"]], 2: [["del", "u2"], ["in", "u1"]]}))
     return S
